@@ -47,6 +47,14 @@ let pr_log l = if l = [] then "-" else
 let pr_matches m = String.concat "/" (List.map (fun l -> if l = [] then "-" else String.concat "." (List.map string_of_n l)) m)
 let rec pr_take k l = if k <= 0 then [] else match l with [] -> [] | x :: r -> x :: pr_take (k - 1) r
 
+(* a pattern: hex, or <mods>:hex with mods among f (fullword), n (nocase), w (wide); see rc_split_mods *)
+let pr_pat s = match String.split_on_char ':' s with
+  | [m; h] ->
+      let marks = List.concat_map (fun c -> match c with
+        | 'f' -> [n_of_int 256] | 'n' -> [n_of_int 257] | 'w' -> [n_of_int 258] | _ -> failwith "mod")
+        (List.init (String.length m) (String.get m)) in
+      marks @ unhex h
+  | _ -> unhex s
 let pr_blocks s =
   let eps = ref [] in
   let bl = List.map (fun e -> match String.split_on_char ':' e with
@@ -64,7 +72,7 @@ let pr_ep = function None -> "-" | Some e -> string_of_n e
    one "call ..." segment per yr_scanner_scan_mem_blocks call, then the summary *)
 let () = register "c13" (fun args -> match args with
   | [pats; rules; imports; flags; script; fsz; blocks; pattern] ->
-      let pats = List.map unhex (pr_split ',' pats) in
+      let pats = List.map pr_pat (pr_split ',' pats) in
       let rules = List.map (fun e -> match String.split_on_char ':' e with
         | [ns; g; p; a] -> { rc_ns = pr_nat_of_int (int_of_string ns); rc_global = pr_bool g; rc_private = pr_bool p;
                              rc_atom_of = pr_atom a }
@@ -105,7 +113,7 @@ let () = register "c13" (fun args -> match args with
 let () = register "c13abandon" (fun args -> match args with
   | [variant; pats; rules; fsz; blocks; pattern; bufhex] ->
       let d = variant <> "pinned" in
-      let pats = List.map unhex (pr_split ',' pats) in
+      let pats = List.map pr_pat (pr_split ',' pats) in
       let rules = List.map (fun e -> match String.split_on_char ':' e with
         | [ns; g; p; a] -> { rc_ns = pr_nat_of_int (int_of_string ns); rc_global = pr_bool g; rc_private = pr_bool p;
                              rc_atom_of = pr_atom a }
